@@ -275,7 +275,16 @@ fn multi(rec: &Value) -> Value {
         row.push((0..cols).map(|c| m[(0, c)].abs()).sum::<f64>() as i64);
         row
     }).collect();
-    json!({"pidx": pidx, "np": np0, "init": init, "rel0": rel0, "steps": steps, "jcols": jcols, "finite": q.finite})
+    // the same caller-owned matrix refilled (what an optimiser callback does on every iteration): partials that have become
+    // exactly zero must overwrite the values of the previous fill
+    let vals2 = Vector6::new(0.0, 7.0, 0.0, 8.0, -0.0, 9.0);
+    let jrefill: Vec<Vec<i64>> = (0..n).map(|b| {
+        let mut m = DMatrix::<f64>::zeros(2, cols);
+        h.set_jacobian(&mut m, 1, b, &vals);
+        h.set_jacobian(&mut m, 1, b, &vals2);
+        (0..cols).map(|c| q.q(m[(1, c)], 1.0)).collect()
+    }).collect();
+    json!({"pidx": pidx, "np": np0, "init": init, "rel0": rel0, "steps": steps, "jcols": jcols, "jrefill": jrefill, "finite": q.finite})
 }
 
 // ------------------------------------------------------------------------------------------------ float classes
